@@ -197,6 +197,36 @@ for _k in ("KS", "PM"):
     _mk_formatting(_k)
 
 
+SPECIAL = [0.0, -0.0, 5e-324, -2.2250738585072014e-308, 1.7976931348623157e+308, 0.1, -123456789.12345679, 1e-05, 1e+16, 3.0000000000000004]
+
+
+@obligation("C14", "roundtrip.special-values", functions=F,
+            bounds=f"KS trajectory of 2 states whose steering angle and velocity take every pair of values from {SPECIAL} (signed zeros, subnormal, "
+                   "extreme and many-digit doubles): read back with identical bits, in one process so that any state kept between elements shows")
+def roundtrip_special(V):
+    import struct
+
+    warnings.filterwarnings("ignore")
+    a = SPECIAL[V.choice("value_state0", len(SPECIAL))]
+    b = SPECIAL[V.choice("value_state1", len(SPECIAL))]
+    vals = {}
+
+    def val(i, f):
+        v = (a if i == 0 else b) if f in ("steering_angle", "velocity") else 0.5 + i
+        vals[(i, f)] = v
+        return v
+
+    traj = fx.solution_trajectory("KS", val, t0=0, n=2)
+    pps = PlanningProblemSolution(7, MODEL_FOR["KS"], VehicleType.BMW_320i, SupportedCostFunctions[MODEL_FOR["KS"].name].value[0], traj)
+    sol_ = Solution(ScenarioID.from_benchmark_id("USA_US101-33_2_T-1", "2020a"), [pps], None, None, None)
+    root = CommonRoadSolutionWriter(sol_)._solution_root
+    back = CommonRoadSolutionReader.fromstring(ET.tostring(root, encoding="unicode"))
+    tr = back.planning_problem_solutions[0].trajectory
+    bits = lambda x: struct.pack("<d", float(x))  # noqa: E731
+    ok = all(bits(getattr(tr.state_list[i], f)) == bits(vals[(i, f)]) for i in range(2) for f in ("steering_angle", "velocity"))
+    V.prove("special double values are read back with identical bits", ok)
+
+
 @obligation("C14", "roundtrip.int-values", functions=F, bounds="KS trajectory whose velocity and steering angle are ints")
 def roundtrip_ints(V):
     warnings.filterwarnings("ignore")
